@@ -575,7 +575,16 @@ func (w *Worker) unop(instr *ssa.UnOp, x value) value {
 		if p == nil {
 			panic(targetPanic{w.runtimeError("invalid memory address or nil pointer dereference")})
 		}
-		return load(deref(instr.X.Type()), p)
+		v := load(deref(instr.X.Type()), p)
+		// *(*string)(unsafe.Pointer(&byteSlice)): the bytes of a slice viewed as a string (jsoniter, strings.Builder)
+		if bs, isBytes := v.([]value); isBytes {
+			if b, ok := deref(instr.X.Type()).Underlying().(*types.Basic); ok && b.Info()&types.IsString != 0 {
+				cp := make([]value, len(bs))
+				copy(cp, bs)
+				return normStr(cp)
+			}
+		}
+		return v
 	case token.NOT:
 		return w.notv(x)
 	case token.XOR:
